@@ -119,6 +119,7 @@ def explore(tier, seed, res=None, replay=None):
                 for f, _, d, _, _ in jobs]
     rows_out = ask(rows_req)
     spec_reqs, owners = [], []
+    pipe_reqs, pipe_owners = [], []
     for (formula, path, data, pointwise, cols), ro in zip(jobs, rows_out):
         res.evaluations += 1
         case = {"formula": formula, "seed_path": path, "missing_in": cols}
@@ -187,9 +188,26 @@ def explore(tier, seed, res=None, replay=None):
                 res.count("pass_cases")
         spec_reqs.append({"op": "c09_spec", "parts": parts})
         owners.append((case, problems, parts))
+        # the whole pipeline in Lean with the NA policy, on formula + data alone
+        for action in ("drop", "pass") if (pointwise and not any(c in CAT for c in cols)) else ("drop",):
+            ns = dict(designs.NAMES)
+            ns["fun"] = fun
+            obs_p, _ = designs.observe(formula, data, ns, na_action=action)
+            if "err" not in obs_p:
+                pipe_reqs.append({"op": "pipeline", "formula": formula, "frame": designs.frame_json(data),
+                                  "names": designs.names_json(designs.NAMES), "na_action": action})
+                pipe_owners.append((dict(case, na_action=action), obs_p))
         if len(res.samples) < 5:
             res.samples.append({"formula": formula, "missing_in": cols, "used": drop["used"],
                                 "rows_kept": sum(bool(c) for c in complete), "rows": len(complete)})
+    for (case, obs_p), po in zip(pipe_owners, ask(pipe_reqs)):
+        if "err" in po:
+            res.count("pipeline_skip:" + po["err"])
+            continue
+        res.count("pipeline_compared")
+        d = designs.compare(obs_p, po)
+        if d:
+            res.mismatches.append({"case": case, "diff": ["pipeline:" + x for x in d[:5]]})
     for (case, problems, parts), sp in zip(owners, ask(spec_reqs)):
         for p, ok in zip(parts, sp["parts"]):
             if not ok:
